@@ -45,7 +45,9 @@ func checkC19(rep *core.Report) {
 		}
 	}
 	rep.Assume("A-nil: the receiver of an exported method is non-nil; A-int: int is 64 bits wide")
-	total, _ := reportObligations(rep, r1, an, func(o *obl.Obligation) bool { return o.Kind == "K1" || o.Kind == "K7" || o.Kind == "K4" || o.Kind == "K5" }, nil)
+	total, _ := reportObligations(rep, r1, an, func(o *obl.Obligation) bool {
+		return o.Kind == "K1" || o.Kind == "K7" || o.Kind == "K4" || o.Kind == "K5"
+	}, nil)
 	rep.Extra["obl_obligations"] = total
 	rep.Extra["obl_functions_reached"] = len(an.Reached)
 	if os.Getenv("VERIF_DEBUG") != "" {
